@@ -1041,7 +1041,7 @@ def Msg.check : Msg → M Unit
     if start ≥ stop then throw .invalidBlockRange
     if stop - start > 10000 then throw .invalidBlockRange
     if amount = 0 then throw .invalidAmount
-  | .subsidy .. => .ok ()
+  | .subsidy _ chain _ => if reservedIds.contains chain || chain > maxChainId then .error .invalidChainId else .ok ()   -- `checkChainId` (eca9d8a)
   | .changeParameter _ _ _ _ start stop => do
     if start ≥ stop then throw .invalidBlockRange
     if stop - start > 10000 then throw .invalidBlockRange
